@@ -380,3 +380,11 @@ def run(ctx):
         check_export(ctx, ctx.fb(cfg), cfg)
     n = len([r for r in ctx.results if r.rule.startswith("R07")])
     ctx.floor("convention-instances", n, 22)
+    # R07-5 (shared with C06 R06-3): a proof recomputes the *current* root only if every write recomputed all ancestors of what it
+    # changed: the parent-recomputation shape of the two in-memory back ends (unconditional climb to the root)
+    from . import c06
+    from ..main import Ctx as _Ctx
+    sub = _Ctx(ctx.pid, ctx.tier)
+    c06.check_recompute(sub, fb)
+    for r in sub.results:
+        (ctx.ok if r.status == "ok" else ctx.fail)("R07-5", r.instance, r.reason, r.loc)
